@@ -169,9 +169,9 @@ func c20Message(i int, size int, rnd *rand.Rand) (*Message, []byte) {
 }
 
 type c20Config struct {
-	Target     string `json:"target"`      // client | backend
-	Inbound    string `json:"inbound"`     // absent | healthy | fail@k | fail@k-partial
-	Reconnect  string `json:"reconnect"`   // absent | fresh | stale-once | refusing | accept-reset | accept-closed
+	Target     string `json:"target"`    // client | backend
+	Inbound    string `json:"inbound"`   // absent | healthy | fail@k | fail@k-partial
+	Reconnect  string `json:"reconnect"` // absent | fresh | stale-once | refusing | accept-reset | accept-closed
 	Messages   int    `json:"messages"`
 	Size       int    `json:"message_size"`
 	inFailAt   int
@@ -659,26 +659,26 @@ func TestVerifC20(t *testing.T) {
 								break
 							}
 							for _, rereg := range []bool{false, true} {
-							if rereg && (target != "client" || msgs < 2 || rc == "accept-reset") {
-								continue
-							}
-							cfg := c20Config{Target: target, Inbound: in.name, Reconnect: rc, Messages: msgs, Size: size,
-								inFailAt: in.failAt, inPartial: in.partial, hasInbound: in.has, Rereg: rereg}
-							why, detail := c20Run(cfg, rnd)
-							if why != "" {
-								// confirm once before reporting (real sockets are involved)
-								why2, _ := c20Run(cfg, rnd)
-								if why2 != "" {
-									run.Violation(fmt.Sprintf("%s/%s/%s: %s", target, in.name, rc, why), map[string]any{"config": cfg, "why": why, "observed": detail})
-								} else {
-									run.Inconclusive(1)
+								if rereg && (target != "client" || msgs < 2 || rc == "accept-reset") {
+									continue
 								}
-							}
-							n++
-							run.Eval(fmt.Sprintf("%s|%s|%s|%d|%d|rereg=%v", target, in.name, rc, msgs, size, rereg))
-							if run.WantSample() && in.failAt == 2 && rc == "fresh" && msgs == 3 {
-								run.Sample(map[string]any{"config": cfg, "observed": detail})
-							}
+								cfg := c20Config{Target: target, Inbound: in.name, Reconnect: rc, Messages: msgs, Size: size,
+									inFailAt: in.failAt, inPartial: in.partial, hasInbound: in.has, Rereg: rereg}
+								why, detail := c20Run(cfg, rnd)
+								if why != "" {
+									// confirm once before reporting (real sockets are involved)
+									why2, _ := c20Run(cfg, rnd)
+									if why2 != "" {
+										run.Violation(fmt.Sprintf("%s/%s/%s: %s", target, in.name, rc, why), map[string]any{"config": cfg, "why": why, "observed": detail})
+									} else {
+										run.Inconclusive(1)
+									}
+								}
+								n++
+								run.Eval(fmt.Sprintf("%s|%s|%s|%d|%d|rereg=%v", target, in.name, rc, msgs, size, rereg))
+								if run.WantSample() && in.failAt == 2 && rc == "fresh" && msgs == 3 {
+									run.Sample(map[string]any{"config": cfg, "observed": detail})
+								}
 							}
 						}
 					}
